@@ -172,6 +172,34 @@ func runC04(c *runCfg) error {
 			}
 		}
 	}
+	// bodies cut short with a consistent length field: every prefix of the body of each message of a valid
+	// extended-query exchange (and of a simple Query). A message whose fields are incomplete is rejected; the
+	// parser, the statement function and the caches never see anything of it.
+	{
+		st := stmtT{id: 4, cols: textCols(1), poids: []int{23}, prog: []opT{{kind: "row", vals: []valT{tv("v")}}, {kind: "complete", tag: []byte("SELECT 1")}}, ret: "nil"}
+		cfg := cfgT{limit: 4096, auth: "none", term: "none", parse: []parseEntry{{query: []byte("q"), stmts: []stmtT{st}}}}
+		valid := [][]byte{
+			msg('P', cat(cs0([]byte("s")), cs0([]byte("q")), be16b(1), be32b(23))),
+			mBind([]byte("p"), []byte("s"), []int{0}, []bindP{{v: []byte("12")}}, []int{0}),
+			mDescribe('P', []byte("p")), mExecute([]byte("p"), 0), mClose('P', []byte("p")), mQuery([]byte("q")),
+		}
+		for vi, m := range valid {
+			body := m[5:]
+			for k := 0; k < len(body); k++ {
+				var raw []byte
+				raw = append(raw, stdStartup...)
+				for j := 0; j < vi && j < 4; j++ {
+					raw = append(raw, valid[j]...)
+				}
+				raw = append(raw, msg(m[0], body[:k])...)
+				for j := vi + 1; j < 4; j++ {
+					raw = append(raw, valid[j]...)
+				}
+				raw = append(raw, mSync()...)
+				emitPair("cut_body", flatCase(0, "cut_body", cfg, raw, nil))
+			}
+		}
+	}
 	// result-format lists of every length against statements of 1..5 columns (fewer, as many, more codes
 	// than columns), described and executed through the portal and the statement
 	for ncols := 1; ncols <= 5; ncols++ {
